@@ -517,6 +517,31 @@ func checkC16Provisioning(w *World, r *Report) {
 	})
 	okCaps := caps["params"] == "maxParams" && caps["tsrParams"] == "maxParams" && caps["skipNds"] == "depth"
 	ru.Check("allocateContext capacities", w.Pos(alloc.Pos()), "params and tsrParams get cap maxParams, the skip stack cap depth", okCaps, fmt.Sprint(caps))
+	// copyWithResize (CloneWith copies the parameters into a pooled context with it): the destination keeps its capacity.
+	// A destination clipped to the length of the source makes the next lookup on that pooled context grow the buffer.
+	if cwr := w.Func("copyWithResize"); cwr != nil {
+		r.Analysed(FuncName(cwr))
+		nsl := 0
+		eachInstr(cwr, func(in ssa.Instruction) {
+			sl, ok := in.(*ssa.Slice)
+			if !ok {
+				return
+			}
+			nsl++
+			keeps := sl.Max == nil
+			if c, ok := sl.Max.(*ssa.Call); ok {
+				if b, ok := c.Call.Value.(*ssa.Builtin); ok && b.Name() == "cap" && sameExpr(c.Call.Args[0], sl.X) {
+					keeps = true
+				}
+			}
+			ru.Check("reslice in copyWithResize", w.Pos(sl.Pos()), "the destination buffer keeps its capacity (no third index, or cap(*dst))", keeps, orDefault(map[bool]string{true: "capacity kept"}[keeps], "capacity clipped to "+valStr(sl.Max)))
+		})
+		if nsl == 0 {
+			r.Unrecognised("C16.3: copyWithResize no longer reslices its destination")
+		}
+	} else {
+		r.Unrecognised("C16.3: copyWithResize not found")
+	}
 	// pools: tree.ctx = sync.Pool{New: func() any { return tree.allocateContext() }}
 	n := 0
 	for _, fn := range w.FoxFuncs() {
